@@ -1,2 +1,4 @@
 import PetlProofs.Order
+import PetlProofs.Sort
 import PetlProofs.Props.C04
+import PetlProofs.Props.C05
